@@ -37,9 +37,9 @@ def run(ctx):
     from . import c01
     c01.p14(ctx, R)
     c01.p15(ctx, R)
-    c01.g4(ctx, R)
     from .c03 import g8
-    g8(ctx, R)
+    from .geval import with_g11
+    with_g11(ctx, R, [c01.g4, g8], aspects=("stored",))
     # printing must not change what the next parse sees: the definition tables are shared by printer and recorder (H1, shared with C13)
     from .c13 import h1
     h1(ctx, R, only={"args_definition", "must_follow", "lrules"})
@@ -353,6 +353,8 @@ def s6(ctx, R):
     for t in slot_types:
         if "tag" in names(t):
             scenarios.append(("tag slot", {"name": "slot", "type": t, "required": False}, ":tag", None, ("tag", ":tag")))
+            # the recorder keeps the tag as the script spelled it; so must the printer (the fixed point is compared text for text)
+            scenarios.append(("tag slot, tag written in mixed case", {"name": "slot", "type": t, "required": False}, ":TaG", None, ("tag", ":TaG")))
             for x in extra_types:
                 for label, v in shapes(x):
                     scenarios.append(("tag slot with parameter type %r" % (x,), {"name": "slot", "type": t, "required": False, "extra_arg": {"type": x}},
@@ -371,6 +373,9 @@ def s6(ctx, R):
     for t in slot_types:
         if names(t) == ["testlist"]:
             scenarios.append(("test-list slot", {"name": "slot", "type": t, "required": True}, TESTS, None, ("test list", TESTS)))
+        if names(t) == ["test"]:
+            # a single test (`not <test>`, `if <test>`): printed by its own tosieve
+            scenarios.append(("test slot", {"name": "slot", "type": t, "required": True}, TESTS[0], None, ("test", "<%s>" % TESTS[0])))
     printer = next((m for n, m in R.Command.methods.items() if n.lstrip("_") == "print"), None)
 
     def oracle(interp, e, name, recv, args, kw, st):
@@ -383,6 +388,8 @@ def s6(ctx, R):
             return [(fd.Const("<%s>" % recv.v), None)]  # ... or hands its text back (a private rendering method)
         if name == "isinstance" and len(args) == 2 and isinstance(args[0], fd.Const) and isinstance(e.args[1], ast.Name) \
                 and ctx.program.cls(e.args[1].id) is not None:
+            if isinstance(args[0].v, str) and args[0].v in TESTS:
+                return [(fd.Const(e.args[1].id in (R.Command.name, "TestCommand")), None)]  # the stand-ins are test commands
             return [(fd.Const(False), None)]  # a str / list / int constant is not an instance of a class of the package
         if name and name.startswith("self."):
             m = name[5:]
